@@ -76,6 +76,14 @@ func genReplayTest(name string, v Violation, openKnown []string) string {
 		fmt.Fprintf(&sb, "%q: true", k)
 	}
 	sb.WriteString("}\n")
+	switch v.Kind {
+	case "assert":
+		fmt.Fprintf(&sb, "\tvTarget = %q\n", v.ID)
+	case "panic":
+		sb.WriteString("\tvTarget = \"(go panic expected)\"\n")
+	default:
+		sb.WriteString("\tvTarget = \"\"\n")
+	}
 	fmt.Fprintf(&sb, "\t%s(", v.Harness)
 	for i, a := range v.Args {
 		if i > 0 {
